@@ -11,6 +11,9 @@
 //!   hll stim burst <now> <pol> <e1,e2,…> => <tok;tok;…>     elements: on off so0 so1 sf0 sf1 node junk
 //!                                                          cancel res<id>ok res<id>err
 //!   hll stim adv <now> <pol> <ms> => <tok;…>                   `ms` of virtual time pass
+//! STATE elements (so0 so1 sf0 sf1) reach the loop alternately as hand-built `Event::State` values and through
+//! `srad_client::topic_and_payload_to_event` (topic bytes + a JSON text with further members / other member order /
+//! whitespace, as other Sparkplug implementations write the certificate); line and model event are the same.
 //! `<now>` = the mock clock (`timestamp()`) during the line. `<pol>` = three letters: decision for
 //! `subscribe_many`, for STATE publishes (a parked `try_` call is a rejection), for `disconnect`
 //! (a = accept, r = reject, p = park).
@@ -644,6 +647,11 @@ pub fn drive(h: &Head, next: &mut dyn FnMut(&[usize]) -> Option<Line>) -> Option
             }
         });
         let mut pushed: VecDeque<El> = VecDeque::new();
+        // STATE elements reach the loop alternately as hand-built events and THROUGH THE WIRE (topic bytes +
+        // JSON text decoded by `srad_client::topic_and_payload_to_event`, the text written the way other
+        // Sparkplug implementations write it: member order, further members, whitespace); the element, the
+        // request line and the model's event are the same either way
+        let mut n_state: usize = 0;
         let mut cancels = vec![];
         mock::settle().await;
         let first = collect(&hub, 0, &own_topic, &mut pushed);
@@ -671,10 +679,29 @@ pub fn drive(h: &Head, next: &mut dyn FnMut(&[usize]) -> Option<Line>) -> Option
                                 pushed.push_back(e.clone());
                             }
                             El::St(own, on) => {
-                                feeder.push(Event::State {
-                                    host_id: if *own { h.host.clone() } else if h.host == FOREIGN { "H3".into() } else { FOREIGN.into() },
-                                    payload: if *on { StatePayload::Online { timestamp: 7 } } else { StatePayload::Offline { timestamp: 7 } },
-                                });
+                                let host_id: String = if *own { h.host.clone() } else if h.host == FOREIGN { "H3".into() } else { FOREIGN.into() };
+                                n_state += 1;
+                                if n_state % 2 == 1 {
+                                    feeder.push(Event::State {
+                                        host_id,
+                                        payload: if *on { StatePayload::Online { timestamp: 7 } } else { StatePayload::Offline { timestamp: 7 } },
+                                    });
+                                } else {
+                                    let text = match (n_state / 2) % 4 {
+                                        0 => format!("{{\"online\":{},\"timestamp\":7}}", on),
+                                        1 => format!("{{\"online\":{},\"timestamp\":7,\"bdSeq\":3}}", on),
+                                        2 => format!("{{ \"uuid\": \"a-b\", \"timestamp\": 7,\n  \"online\": {} }}", on),
+                                        _ => format!("{{\"meta\":{{\"v\":[1,2]}},\"timestamp\":7,\"online\":{}}}", on),
+                                    };
+                                    let topic = format!("spBv1.0/STATE/{}", host_id).into_bytes();
+                                    match catch(move || srad_client::topic_and_payload_to_event(topic, text.into_bytes())) {
+                                        Ok(ev) => {
+                                            feeder.push(ev);
+                                        }
+                                        // nothing reaches the loop: the missing poll shows in the line
+                                        Err(_) => {}
+                                    }
+                                }
                                 pushed.push_back(e.clone());
                             }
                             El::Node => {
